@@ -24,6 +24,7 @@ type propC04 struct {
 	npat   int
 	nFlip  int
 	nHdr   int
+	nTgt   int
 	count  int
 	preOK  map[int]bool
 }
@@ -44,7 +45,7 @@ func (p *propC04) Assumptions() []string {
 	}
 }
 func (p *propC04) ProbeNames() []string {
-	return []string{"burst across header/data boundary", "burst inside stored file CRC", "burst inside stored header CRC", "stored header CRC turned to 0", "header matrix: matching", "header matrix: zero", "header matrix: mismatching", "precondition: pool file passes both"}
+	return []string{"burst across header/data boundary", "burst inside stored file CRC", "burst inside stored header CRC", "stored header CRC turned to 0", "header matrix: matching", "header matrix: zero", "header matrix: mismatching", "precondition: pool file passes both", "targeted burst: stored CRC forced to a special value"}
 }
 
 func (p *propC04) Prepare(seed uint64, tier string) int {
@@ -112,7 +113,9 @@ func (p *propC04) Prepare(seed uint64, tier string) int {
 	if base == "replay" {
 		p.nHdr = 0
 	}
-	p.count = p.nFlip + p.nHdr
+	// targeted bursts: the ones that turn a stored CRC into a "special" value
+	p.nTgt = len(p.files) * len(c04Targets)
+	p.count = p.nFlip + p.nHdr + p.nTgt
 	return p.count
 }
 
@@ -123,6 +126,9 @@ func burstExcluded(bit, l int) bool {
 }
 
 func (p *propC04) Gen(idx int) *Scenario {
+	if idx >= p.nFlip+p.nHdr {
+		return p.genTargeted(idx - p.nFlip - p.nHdr)
+	}
 	if idx >= p.nFlip {
 		return p.genHeader(idx - p.nFlip)
 	}
@@ -262,6 +268,7 @@ func (p *propC04) Check(sc *Scenario, st *Stats) []Violation {
 		st.Probe("stored header CRC turned to 0")
 	}
 	st.Nontrivial++
+	st.ProbeIf(sc.Params["target"] != "", "targeted burst: stored CRC forced to a special value")
 	for _, r := range res {
 		st.Observe(r)
 		src := "model"
@@ -345,4 +352,42 @@ func (p *propC04) checkHeader(sc *Scenario, st *Stats) []Violation {
 		}
 	}
 	return vs
+}
+
+// Targeted bursts. A uniform pattern sample almost never hits the one burst
+// that makes a stored CRC equal to a value some code path might treat
+// specially (0 = "not computed" for header CRCs). These are single bursts of
+// <= 16 bits by construction: the XOR of the stored value and the target.
+var c04Targets = []struct {
+	where  string // "file" | "header"
+	target uint16
+}{{"file", 0x0000}, {"file", 0xFFFF}, {"header", 0x0000}, {"header", 0xFFFF}, {"file", 0x0001}, {"file", 0x8000}}
+
+func (p *propC04) genTargeted(i int) *Scenario {
+	f := &p.files[i/len(c04Targets)]
+	tg := c04Targets[i%len(c04Targets)]
+	pos := f.frame.End - 2
+	if tg.where == "header" {
+		if !f.frame.HasHCRC {
+			return nil
+		}
+		pos = 12
+	}
+	stored := get16(f.bytes[pos:pos+2], false)
+	x := stored ^ tg.target
+	if x == 0 {
+		return nil
+	}
+	lo, hi := 0, 15
+	for x>>uint(lo)&1 == 0 {
+		lo++
+	}
+	for x>>uint(hi)&1 == 0 {
+		hi--
+	}
+	med := f.med
+	med.Flips = []Flip{{Bit: 8*pos + lo, Len: hi - lo + 1, Mask: uint32(x >> uint(lo))}}
+	return &Scenario{V: 1, Property: "C04", Engine: "rx", Family: "flip", Seed: p.seed, Index: p.nFlip + p.nHdr + i,
+		Media: []Medium{med}, Params: map[string]string{"file": f.name, "target": tg.where + "->" + itoa(int(tg.target))},
+		Tasks: []Task{{ID: 0, Call: "Decode", In: "m0", Read: planFull()}, {ID: 1, Call: "CheckIntegrity", In: "m0", Read: planFull()}}}
 }
